@@ -35,14 +35,30 @@ theorem unsupported_nested_found (pre post : List VShape) (v : VShape) (h : vali
     validShape (.coll (pre ++ v :: post)) = false := by
   unfold validShape
   induction pre with
-  | nil => simp [validShape.validItems, h]
-  | cons p ps ih => simp [validShape.validItems]; intro _; simpa [validShape] using ih
+  | nil =>
+    cases v with
+    | sys _ => simp [validShape] at h
+    | elem _ => simp [validShape] at h
+    | coll _ => rfl
+    | bad => rfl
+  | cons p ps ih => cases p <;> simp [validShape.validItems] <;> exact ih
+
+/-- collections do not nest: a collection inside a collection is unsupported whatever it holds -/
+theorem nested_collection_unsupported (pre post inner : List VShape) :
+    validShape (.coll (pre ++ .coll inner :: post)) = false := by
+  unfold validShape
+  induction pre with
+  | nil => rfl
+  | cons p ps ih => cases p <;> simp [validShape.validItems] <;> exact ih
 
 theorem unsupported_deeply_nested (v : VShape) (h : validShape v = false) (n : Nat) :
     validShape (Nat.rec v (fun _ acc => .coll [.sys 1, acc]) n) = false := by
-  induction n with
+  cases n with
   | zero => exact h
-  | succ n ih => simp [validShape, validShape.validItems, ih]
+  | succ n =>
+    cases n with
+    | zero => exact unsupported_nested_found [.sys 1] [] v h
+    | succ m => rfl
 
 /-- a name supplied twice fails with ErrExistingConstant (second occurrence), whatever lies between -/
 theorem duplicate_name_existing (m : EnvMap) (a b : EnvOpt) (mid post : List EnvOpt)
